@@ -1,7 +1,8 @@
 (* C04_Wire.v — wire glue for C04 (no proofs; exercised by the correspondence).
 
    input    = cmp :: concat [op; a; b]       cmp: 0 ascending (a < b), 2 / 3 ascending / descending over
-                                             EXTREME keys (below), anything else descending (a > b)
+                                             EXTREME keys (below), 4 / 5 and 6 / 7 ascending / descending
+                                             at OTHER TYPE INSTANCES (below), anything else descending (a > b)
               op: 0 Upsert a b | 1 Delete a | 2 Get a | 3 Size | 4 Traverse   (unused fields are 0)
    observed = concat (per-op results) ++ [final Size] ++ final Traverse
               Upsert   -> [0]            ([2] if it panicked)
@@ -20,7 +21,18 @@
    model on the wire keys themselves under the comparator pulled back along
    ext_key, which is the same tree up to renaming the keys because ext_key is
    injective on 0..4999 (and the harness refuses other keys in these modes).
-   No Z.to_nat anywhere: the window is selected by matching k / 1000. *)
+   No Z.to_nat anywhere: the window is selected by matching k / 1000.
+
+   Type instances.  cmp = 0..3 drive BsTree[int, int].  With cmp = 4 / 5 the
+   harness drives BsTree[string, string], with 6 / 7 BsTree[K, V] for a NAMED
+   string type K and a struct type V (with a slice field), under the comparator
+   a < b / a > b ON THE STRINGS.  A wire key k stands for the fixed-width decimal
+   string of k + 10^12 (13 digits; injective and order preserving for |k| <
+   10^12), a wire value v for the decimal string of v (resp. the struct built
+   from it); every string is built afresh at run time for every call, so equal
+   keys never share a backing array.  Keys and values coming back are parsed
+   back to integers.  Because the codec preserves the order, this side is just
+   the model at Z with Z.ltb / Z.gtb. *)
 
 From Gogu Require Import Base C04_Model.
 
@@ -40,6 +52,7 @@ Definition cmp_of (c : Z) : Z -> Z -> bool :=
   | 0 => Z.ltb
   | 2 => fun a b => Z.ltb (ext_key a) (ext_key b)
   | 3 => fun a b => Z.gtb (ext_key a) (ext_key b)
+  | 4 | 6 => Z.ltb
   | _ => Z.gtb
   end.
 
